@@ -134,10 +134,10 @@ Qed.
 
 (* ---------- non-vacuity: a 40 x 50 image with a blank pixel, an affine WCS, three sources ----------
    s0 (uuid 7) and s1 (uuid 8) blend in one island; s2 (uuid 9) sits on the blank pixel (3,3) *)
-Definition ex_S := aff_S (21 # 1) (26 # 1) (256 # 1) (150 # 1) (-30 # 1).
-Definition ex_P := aff_P (21 # 1) (26 # 1) (256 # 1) (150 # 1) (-30 # 1).
-Definition ex_SE := aff_SE (256 # 1) 0.
-Definition ex_PE := aff_PE (256 # 1) 0.
+Definition ex_S := aff_S (21 # 1) (26 # 1) (256 # 1) (256 # 1) (150 # 1) (-30 # 1).
+Definition ex_P := aff_P (21 # 1) (26 # 1) (256 # 1) (256 # 1) (150 # 1) (-30 # 1).
+Definition ex_SE := aff_SE (256 # 1) (256 # 1) 0.
+Definition ex_PE := aff_PE (256 # 1) (256 # 1) 0.
 Definition ex_BM := fun _ : Q * Q => ((4 # 1), (4 # 1)).
 Definition ex_im := mkImage 40 50 [(3, 3)%Z] [].
 Definition ex_s0 := mkSrc 7 (150 # 1) (-30 # 1) (1 # 1) (3600 * 3 # 128) (3600 * 2 # 128) (30 # 1) (1 # 8) (2 # 8) (3 # 8) (4 # 8) (5 # 8) 0.
